@@ -69,7 +69,7 @@ Swallows(st) == st = "models"
 \* "partial" = files missing on the old side (ignored before fix 2894bf8, a difference since).  As the code behaves, the temp tree ALSO differs from an
 \* up-to-date existing tree when post-processing is on (ruff sorts imports differently without the ancestor __init__.py
 \* files) and when the core is external (the rich client __init__.py is written only on the direct path).
-DiffFinds(s) == s.existing \in {"different", "partial"} \/ s.pp \/ s.core # "embedded"    \* since fix 2894bf8 missing / non-.py files count
+DiffFinds(s) == s.existing \in {"different", "partial"} \/ (s.pp /\ ~(s.core = "embedded" /\ s.cwd = "root")) \/ s.core # "embedded"    \* since fix 2894bf8 missing / non-.py files count
 
 Init ==
   /\ sc \in Scenarios
